@@ -22,6 +22,17 @@ func GenC06Dup() *rapid.Generator[C06Dup] {
 	gg := genGenomeSpec(GenomeCfg{Modules: true, MinGenes: 1})
 	return rapid.Custom(func(t *rapid.T) C06Dup {
 		c := C06Dup{G: gg.Draw(t, "genome"), NewId: rapid.IntRange(0, 1000).Draw(t, "new id"), OnCopy: rapid.Bool().Draw(t, "mutate copy")}
+		if rapid.IntRange(0, 5).Draw(t, "other trait lengths") == 0 {
+			// traits built in code may carry any number of parameters (the file formats fix eight)
+			for i := range c.G.Traits {
+				n := rapid.IntRange(0, 12).Draw(t, "trait params")
+				p := make([]float64, n)
+				for j := range p {
+					p[j] = rapid.Float64Range(-2, 2).Draw(t, "trait param")
+				}
+				c.G.Traits[i].Params = p
+			}
+		}
 		kinds := mutatorKinds
 		if len(c.G.Modules) > 0 {
 			kinds = nonStructuralKinds // structural mutators are defined for non-modular genomes (see C01)
@@ -127,6 +138,9 @@ func sharedState(a, b *genetics.Genome) error {
 			chk(unsafe.Pointer(l), "a module link")
 			chk(unsafe.Pointer(l.OutNode), "a module output node")
 		}
+		for _, n := range cg.VerifIONodes() {
+			chk(unsafe.Pointer(n), "a node in a module's list of input/output nodes")
+		}
 	}
 	if len(b.Traits) > 0 {
 		chk(unsafe.Pointer(&b.Traits[0]), "the trait list's backing array")
@@ -209,6 +223,12 @@ func CheckC06Dup(c C06Dup, rec *Rec) error {
 		return err
 	}
 	disabled, recurrent, nilTraits := specFeatures(c.G)
+	for _, tr := range c.G.Traits {
+		if len(tr.Params) != 8 {
+			rec.Class("trait without exactly eight parameters")
+			break
+		}
+	}
 	if disabled > 0 {
 		rec.Class("disabled gene")
 	}
